@@ -449,6 +449,30 @@ def build_mixed(P, Pp, picks):
     return mk(calls_d), mk(calls_p), sites
 
 
+# ------------------------------------------------------------------------------------------ bodies
+def body_signature(model, f, depth=0):
+    """what a FunctionProto computes, structurally: operator sequence, constants by content, nested calls by their own signature"""
+    import hashlib
+    import onnx.numpy_helper as nh
+    fids = {(g.domain, g.name): g for g in model.functions}
+    sig = []
+    for n in f.node:
+        g = fids.get((n.domain, n.op_type))
+        if g is not None and depth < 6:
+            sig.append(("call", body_signature(model, g, depth + 1)))
+        elif n.op_type == "Constant":
+            t = next((a.t for a in n.attribute if a.name == "value"), None)
+            sig.append(("Constant", None if t is None else hashlib.sha1(nh.to_array(t).tobytes()).hexdigest()[:12]))
+        else:
+            sig.append((n.op_type,))
+    return (len(f.input), len(f.output), tuple(sig))
+
+
+def main_call_defs(model):
+    fids = {(g.domain, g.name): g for g in model.functions}
+    return [fids[(n.domain, n.op_type)] for n in walk_nodes(model.graph.node) if (n.domain, n.op_type) in fids]
+
+
 # ------------------------------------------------------------------------------------------ histories
 # Several conversions in ONE process with callees mutated in between.  Each export must agree with eager JAX NOW and
 # share definitions iff the current states are equal (Dedup.predict on the current site description).
@@ -771,7 +795,7 @@ def run(ctx):
     nprng = np.random.default_rng(ctx.rng.getrandbits(32))
     stats = new_stats()
     I = Interner()
-    cases, infos = [], {}
+    cases, infos, models = [], {}, {}
     loud_cf = []
     for name, prog_d in P.PROGRAMS.items():
         prog_p = Pp.PROGRAMS[name]
@@ -790,6 +814,46 @@ def run(ctx):
             ctx.oblige(f"tie:identifier-shape:{name}", False, "tie", f"function identifiers not of the modelled form: {info['bad']}")
             continue
         cases.append((name, case_term(I, P.TARGETS, prog_d["sites"], info["defs"], info["calls"])))
+        models[name] = md
+    # ---- distinct targets with one display name: every call node must resolve to the definition built for ITS target
+    alone, wrong, n_sn = {}, [], 0
+    for name, prog_d in P.PROGRAMS.items():
+        if not prog_d.get("same_name") or name not in models:
+            continue
+        md = models[name]
+        top = [s_["q"] for s_ in prog_d["sites"] if s_["parent"] is None]
+        got = main_call_defs(md)
+        if len(got) != len(top):
+            wrong.append(f"{name}: {len(got)} call nodes for {len(top)} call sites")
+            continue
+        if len({(f.domain, f.name) for f in md.functions}) != len(md.functions):
+            wrong.append(f"{name}: duplicate function identifiers")
+        for k, (q, f) in enumerate(zip(top, got)):
+            if q not in alone:
+                try:
+                    ma = export(P.ALONE[q], dict(inputs=P.X, params=None, x64=False))
+                    alone[q] = body_signature(ma, main_call_defs(ma)[0])
+                except Exception as e:  # noqa
+                    alone[q] = None
+                    wrong.append(f"{q}: cannot export the target alone: {e}")
+            n_sn += 1
+            if alone[q] is not None and body_signature(md, f) != alone[q]:
+                wrong.append(f"{name}: call site {k} (target {q}) names {f.domain}:{f.name} whose body is not the body of {q} exported alone")
+    ctx.oblige(f"tie:identifiers-distinct-and-each-call-node-resolves-to-the-definition-built-for-its-target({n_sn} call sites, same display name)",
+               not wrong, "tie", "; ".join(wrong[:6]))
+    # ---- call-site constants as operands: the shared body must READ the operand (not a baked-in copy of one site's value)
+    unread, n_co = [], 0
+    for name, prog_d in P.PROGRAMS.items():
+        if not prog_d.get("const_operands") or name not in models:
+            continue
+        for f in models[name].functions:
+            used = {i for n in walk_nodes(f.node) for i in n.input} | set(f.output)
+            for k in prog_d["const_operands"]:
+                n_co += 1
+                if k >= len(f.input) or f.input[k] not in used:
+                    unread.append(f"{name}: body of {f.domain}:{f.name} never reads operand {k}")
+    ctx.oblige(f"tie:shared-body-is-generic-in-its-constant-operands({n_co} operands read through the function input)", not unread, "tie",
+               "; ".join(unread[:6]))
     # thorough: every fixed program again under enable_double_precision
     if ctx.tier != "quick":
         for name, prog_d in P.PROGRAMS.items():
